@@ -104,9 +104,7 @@ def run(ctx):
             ok = all(ctx._sat(d, r"will_forward_any\(self\.0\)=False") for d in pcs)
             if not ok:
                 # a path that never asks but already excludes every way to forward anything
-                s_, _ = ctx.sym(f)
-                for _, t_ in ctx.find_calls(f, r"ForwardAttrs::<'_>::will_forward_any$")[:1]:
-                    ok = ctx.pc_entails_call(f, blk0, mir.callee_of(t_), [sym.strip_transparent(s_.operand(a_)) for a_ in t_["args"]], False)
+                ok = ctx.pc_entails_call(f, blk0, "darling_core::codegen::attrs_field::ForwardAttrs::<'_>::will_forward_any", [("field", ("param", 1, "self"), "0")], False)
             ctx.ob("C08.G.forward-none", f.key, "`_ => continue` only", ok and txt.rstrip(" ,") == "_ => continue", "%s under %s" % (txt, [sorted(d) for d in pcs]))
         if groups["all"]:
             seen["all"] += 1
@@ -123,14 +121,8 @@ def run(ctx):
         ctx.ob("C08.G.forward-only-names", f.key, "names = idents.to_strings()", len(nm) == 1 and "self.0.filter" in ctx.expr(f, nm[0][1]["args"][0]), "%s" % [ctx.expr(f, t["args"][0])[:120] for _, t in nm])
     f = ctx.fn("darling_core::codegen::attrs_field::ForwardAttrs::<'_>::will_forward_any")
     if f:
-        for d in f.defs().get(0, []):
-            blk, i, kind, node = d
-            if f.is_cleanup(blk):
-                continue
-            e = ctx.expr(f, node["r"]) if kind == "assign" else "call"
-            if e == "false":
-                continue
-            ctx.requires("C08.G.will-forward-any", f, blk, "true result", [r"is_some\(self\.filter\)=True"])
+        tc = ctx.true_conditions(f)
+        ctx.ob("C08.G.will-forward-any", f.key, "true result", bool(tc) and all("is_some(self.filter)=True" in d for d in tc), "true under %s" % [sorted(d) for d in tc])
     for name, want in (("Declaration<'_>", "let mut __fwd_attrs : :: darling :: export :: Vec < :: darling :: export :: syn :: Attribute > = vec ! [ ] ; let mut ⟨proc_macro2::Ident⟩ : :: darling :: export :: Option < _ > = None ;"),):
         f = ctx.fn(common.TOK % ("attrs_field::" + name))
         if f:
